@@ -229,3 +229,10 @@ Fixpoint insert_by_name (x : Z * list Z) (l : list (Z * list Z)) : list (Z * lis
 Definition sort_by_name (l : list (Z * list Z)) : list (Z * list Z) := fold_right insert_by_name [] l.
 Definition concatenate_pattern (chk lfix : bool) (listing : list (Z * list Z)) (per_batch : Z) (names : list (option det)) : rres result :=
   concatenate_gen chk lfix (map snd (sort_by_name listing)) per_batch names.
+(* concatenate_raw(<one name, not a list>): the name of an existing file is that file; anything else is a pattern *)
+Definition concatenate_name (chk lfix : bool) (named_file : option (list Z)) (listing : list (Z * list Z)) (per_batch : Z)
+           (names : list (option det)) : rres result :=
+  match named_file with
+  | Some fw => concatenate_gen chk lfix [fw] per_batch names
+  | None => concatenate_pattern chk lfix listing per_batch names
+  end.
